@@ -27,14 +27,15 @@ import (
 
 func init() {
 	register(&Driver{
-		Name:     "dispatch",
-		Header:   "From ZenoV Require Import Lib.Harness Safe.GoOps Safe.Dispatch Safe.SafeHarness.\nOpen Scope Z_scope.\n",
-		CaseType: "dcase",
-		Footer:   "\nDefinition DIFF := Eval vm_compute in ddiffs cases.\nPrint DIFF.\nDefinition MON := Eval vm_compute in dmons cases.\nPrint MON.\n",
-		Rule:     "one case = an item (state, depth chain, redirects, hops) x presence of response / body / MIME / parsed URL x status code x Content-Type x Server x URL shape x body kind x configuration (max redirects, max hops, assets capture, domains crawl), run through the real postprocessItem with recover(); distinct by input text; non-trivial when the item got children (assets or a redirection target) or outlinks, or the call panicked",
-		Setup:    func() { config.InitConfig() },
-		Gen:      genDispatch,
-		Exec:     execDispatch,
+		Name:           "dispatch",
+		CaseTimeoutSec: 120,
+		Header:         "From ZenoV Require Import Lib.Harness Safe.GoOps Safe.Dispatch Safe.SafeHarness.\nOpen Scope Z_scope.\n",
+		CaseType:       "dcase",
+		Footer:         "\nDefinition DIFF := Eval vm_compute in ddiffs cases.\nPrint DIFF.\nDefinition MON := Eval vm_compute in dmons cases.\nPrint MON.\n",
+		Rule:           "one case = an item (state, depth chain, redirects, hops) x presence of response / body / MIME / parsed URL x status code x Content-Type x Server x URL shape x body kind x configuration (max redirects, max hops, assets capture, domains crawl), run through the real postprocessItem with recover(); distinct by input text; non-trivial when the item got children (assets or a redirection target) or outlinks, or the call panicked",
+		Setup:          func() { config.InitConfig() },
+		Gen:            genDispatch,
+		Exec:           execDispatch,
 	})
 }
 
